@@ -18,6 +18,7 @@ import textwrap
 
 from . import py2mini
 from .py2mini import Untranslatable, glist
+from .src_numberify import NumTranslator
 
 PRIMS = ('builtins.max', 'builtins.str')
 
@@ -52,6 +53,73 @@ class HeadTranslator(RenderTranslator):
         self.fd.body = self.fd.body[:-1]
 
 
+class TopTranslator(NumTranslator):
+    """the top-level functions render_rows / render_csv / render_text: NumTranslator's rules (truth in test positions,
+    tuple-pattern comprehensions, ...) plus
+      T1  isinstance(x, list)            -> XPrim "isinstance:list" [x]
+      T2  zip(*e)                        -> XPrim "zip*" [e]                       (transposition)
+      T3  yield from e                   -> for $y in e: yield $y
+      T4  for x in L: <body that mutates x in place through a list method>  (L a local list whose items are not
+          aliased elsewhere)             -> $new = []; for x in L: <body>; $new.append(x)   then  L = $new
+      T5  f.write(s) / w.writerow(r) / w.writerows(rs) on a LOCAL name  -> XMethod (the receiver is written back: the
+          file is a value, its content; csv.writer(file) wraps that content and is the only way the file is reached afterwards)
+      T6  C(args, k=v) for a class C declared primitive keeps its keywords in the primitive's name (py2mini does that);
+          F1 (f-strings) as in RenderTranslator."""
+
+    IO_MUTATORS = {'write', 'writerow', 'writerows'}
+
+    def expr(self, e):
+        if isinstance(e, ast.JoinedStr):
+            return RenderTranslator.expr(self, e)
+        if isinstance(e, ast.Call) and isinstance(e.func, ast.Name) and e.func.id not in self.locals and not e.keywords:
+            if e.func.id == 'isinstance' and len(e.args) == 2 and isinstance(e.args[1], ast.Name) \
+                    and e.args[1].id not in self.locals and self.resolve_free(e.args[1].id) is list \
+                    and self.resolve_free('isinstance') is isinstance:                                     # T1
+                return f'(XPrim "isinstance:list" [{self.expr(e.args[0])}])'
+            if e.func.id == 'zip' and len(e.args) == 1 and isinstance(e.args[0], ast.Starred) \
+                    and self.resolve_free('zip') is zip:                                                   # T2
+                return f'(XPrim "zip*" [{self.expr(e.args[0].value)}])'
+        if isinstance(e, ast.Call) and isinstance(e.func, ast.Attribute) and isinstance(e.func.value, ast.Name) \
+                and e.func.value.id in self.locals and e.func.value.id != self.self_name \
+                and e.func.attr in self.IO_MUTATORS and not e.keywords:                                    # T5
+            return (f'(XMethod (TName {py2mini.gstr(e.func.value.id)}) {py2mini.gstr(e.func.attr)} '
+                    f'{glist([self.expr(a) for a in e.args])})')
+        return super().expr(e)
+
+    def stmt(self, s):
+        if isinstance(s, ast.Expr) and isinstance(s.value, ast.YieldFrom):                                # T3
+            self.locals.add('$y')
+            return f'(SFor "$y" {self.expr(s.value.value)} [(SYield (XName "$y"))])'
+        if isinstance(s, ast.For) and isinstance(s.target, ast.Name) and isinstance(s.iter, ast.Name) \
+                and s.iter.id in self.locals and not s.orelse and self._mutates(s.body, s.target.id):      # T4
+            x, lst = s.target.id, s.iter.id
+            for n in ast.walk(ast.Module(body=s.body, type_ignores=[])):
+                if isinstance(n, ast.Name) and n.id == lst:
+                    raise Untranslatable('in-place loop body mentions the list it iterates over')
+                if isinstance(n, (ast.Return, ast.Break, ast.Continue, ast.Yield, ast.YieldFrom)):
+                    raise Untranslatable('in-place loop body leaves the loop / yields')
+            self.locals.add('$new')
+            body = self.block(s.body)
+            assert body.endswith(']')
+            sep = '' if body == '[]' else '; '
+            body = body[:-1] + sep + f'(SExpr (XMethod (TName "$new") "append" [(XName {py2mini.gstr(x)})]))]'
+            return (f'(SAssign (TName "$new") (XList [])); (SFor {py2mini.gstr(x)} (XName {py2mini.gstr(lst)}) {body}); '
+                    f'(SAssign (TName {py2mini.gstr(lst)}) (XName "$new"))')
+        return super().stmt(s)
+
+    @staticmethod
+    def _mutates(body, x):
+        for st in body:
+            for n in ast.walk(st):
+                if isinstance(n, ast.Call) and isinstance(n.func, ast.Attribute) and isinstance(n.func.value, ast.Name) \
+                        and n.func.value.id == x and n.func.attr in py2mini.MUTATORS:
+                    return True
+        return False
+
+
+TOP_PRIMS = ('builtins.max', 'builtins.any', 'builtins.zip')
+
+
 def spec_render():
     from beanquery import query_render as qr
     for cls in (qr.StringRenderer, qr.IntRenderer, qr.DictRenderer):
@@ -72,6 +140,7 @@ def spec_render():
             out.append((f'render_{short}_{m}', cls.__dict__[m], f'beanquery.query_render.{cls.__name__}.{m}', False))
     out.append(('render_decimal_prepare_head', qr.DecimalRenderer.__dict__['prepare'],
                 'beanquery.query_render.DecimalRenderer.prepare without its last statement `return super().prepare()`', True))
+    out.append(('render_rows_fn', qr.render_rows, 'beanquery.query_render.render_rows', 'top'))
     return out
 
 
@@ -81,7 +150,10 @@ class RenderGroup:
         refs = py2mini.Refs()
         defs, info = [], {}
         for name, fn, origin, head in spec:
-            tr = (HeadTranslator if head else RenderTranslator)(fn, refs, prims=prims)
+            if head == 'top':
+                tr = TopTranslator(fn, refs, prims=tuple(prims) + TOP_PRIMS, coq_name=name)
+            else:
+                tr = (HeadTranslator if head else RenderTranslator)(fn, refs, prims=prims)
             term, defaults = tr.translate()
             defs.append((name, origin, term, defaults))
             info[name] = {'origin': origin, 'lines': len(textwrap.dedent(inspect.getsource(fn)).splitlines())}
